@@ -26,6 +26,100 @@ func loopOrdinal(fn *ssa.Function, h *ssa.BasicBlock) int {
 	return -1
 }
 
+// loopBoundName: the parameter or field whose length bounds the loop with header h (for i < len(x) / range x); "" if
+// the guard has another shape.
+func loopBoundName(h *ssa.BasicBlock) string {
+	if len(h.Instrs) == 0 {
+		return ""
+	}
+	iff, ok := h.Instrs[len(h.Instrs)-1].(*ssa.If)
+	if !ok {
+		return ""
+	}
+	bin, ok := iff.Cond.(*ssa.BinOp)
+	if !ok {
+		return ""
+	}
+	for _, side := range []ssa.Value{bin.Y, bin.X} {
+		if call, ok := side.(*ssa.Call); ok {
+			if b, ok := call.Call.Value.(*ssa.Builtin); ok && b.Name() == "len" {
+				return valueSourceName(call.Call.Args[0], 0)
+			}
+		}
+	}
+	return ""
+}
+
+func valueSourceName(v ssa.Value, depth int) string {
+	if depth > 6 {
+		return ""
+	}
+	switch x := v.(type) {
+	case *ssa.Parameter:
+		return x.Name()
+	case *ssa.FieldAddr:
+		return x.X.Type().Underlying().(*types.Pointer).Elem().Underlying().(*types.Struct).Field(x.Field).Name()
+	case *ssa.Field:
+		return x.X.Type().Underlying().(*types.Struct).Field(x.Field).Name()
+	case *ssa.UnOp:
+		return valueSourceName(x.X, depth+1)
+	case *ssa.ChangeType:
+		return valueSourceName(x.X, depth+1)
+	case *ssa.Alloc:
+		return x.Comment
+	}
+	return ""
+}
+
+// contractLoop: the number the contract uses for the loop with header h. Positional (source order) unless the
+// contract names the loops by their bound ("loop N over name") and exactly one loop has that bound.
+func contractLoop(c *Contract, fn *ssa.Function, h *ssa.BasicBlock) int {
+	ord := loopOrdinal(fn, h)
+	if c == nil || len(c.LoopOver) == 0 {
+		return ord
+	}
+	count := map[string]int{}
+	for _, b := range fn.Blocks {
+		if isLoopHeader(b) {
+			count[loopBoundName(b)]++
+		}
+	}
+	name := loopBoundName(h)
+	named := map[string]bool{}
+	for n, nm := range c.LoopOver {
+		if count[nm] == 1 {
+			named[nm] = true
+			if nm == name {
+				return n
+			}
+		}
+	}
+	// a loop that is not named keeps its position among the loops that are not named
+	pos := 0
+	for _, b := range fn.Blocks {
+		if !isLoopHeader(b) {
+			continue
+		}
+		if b == h {
+			break
+		}
+		if !named[loopBoundName(b)] {
+			pos++
+		}
+	}
+	free := 0
+	for n := 0; n < 64; n++ {
+		if nm, ok := c.LoopOver[n]; ok && named[nm] {
+			continue
+		}
+		if free == pos {
+			return n
+		}
+		free++
+	}
+	return ord
+}
+
 // loopBody returns the blocks of the natural loop with header h.
 func loopBody(h *ssa.BasicBlock) map[*ssa.BasicBlock]bool {
 	body := map[*ssa.BasicBlock]bool{h: true}
@@ -54,7 +148,7 @@ func (ex *Exec) loopCut(st *State, h *ssa.BasicBlock, prev *ssa.BasicBlock, k co
 		ex.oblige(st, "limit", fnName(ex.top)+"#tool-limit@loop-in-inlined-callee", nil, TFalse, "loop inside an uncontracted callee: "+fnName(fn))
 		return true
 	}
-	ord := loopOrdinal(fn, h)
+	ord := contractLoop(ex.topC, fn, h)
 	var invs []*Clause
 	for _, cl := range ex.topC.Clauses {
 		if cl.Kind == "invariant" && cl.Loop == ord {
